@@ -35,6 +35,7 @@ func (c06) Gen(r *rand.Rand, tier string, run int) *core.Case {
 		c.Net.ReadMode = "random"
 	}
 	c.Params["authenticator"] = r.IntN(4) // 0 dictionary, 1 yes, 2 no, 3 predicate
+	c.Params["stream_names"] = []int{0, 0, 0, 1, 1, 2, 3, 4}[r.IntN(8)]
 	hostiles := 1 + r.IntN(2)
 	c.Params["hostiles"] = hostiles
 	c.Params["honest"] = r.IntN(2)
